@@ -8,9 +8,9 @@ EXPLANATION = ("Harness c04.prog: programs of k symbolic operations over set a/b
                "symbolic configuration, run on a real object and on the reference dispatcher (statement semantics: deferred while "
                "any context is open, one call per watcher at the outermost exit with one event per parameter that had a qualifying "
                "event for that watcher carrying the final value, precedence order, discard drops exactly the events raised inside, "
-               "trigger type/bypass/no value change, Event reset, update-context restore).")
+               "trigger type/bypass/no value change, Event reset, update-context restore); a family of the same programs runs on a deepcopy / shallow copy of the object the watchers were registered on.")
 STUBS = []
-OUTSIDE = ["class-level batching", "nesting deeper than 2", "programs longer than k", "the `old` field of an event that coalesces several "
+OUTSIDE = ["pickle round trips of watched objects (callbacks are local functions)", "class-level batching", "nesting deeper than 2", "programs longer than k", "the `old` field of an event that coalesces several "
            "assignments (statement: 'carrying the final value')", "assigning callbacks in C04 programs (covered in C03)"]
 ASSUMPTIONS = ["a mismatch is attributed to a listed known finding only if the real trace equals the trace of the model variant that "
                "encodes exactly that deviation (per-parameter coalescing), or the program contains a trigger inside an open batch"]
@@ -19,10 +19,10 @@ NAMES_IDX = (0, 1, 2, 5)
 
 
 def prog(k: int, n1: int, oc1: bool, qd1: bool, pr1: int, kw1: bool, n2: int, oc2: bool, qd2: bool, pr2: int, kw2: bool,
-         o1: int, x1: int, o2: int, x2: int, o3: int, x3: int, o4: int, x4: int, o5: int, x5: int) -> None:
+         o1: int, x1: int, o2: int, x2: int, o3: int, x3: int, o4: int, x4: int, o5: int, x5: int, copied: int = 0) -> None:
     wc = [(n1, oc1, qd1, pr1, kw1), (n2, oc2, qd2, pr2, kw2)]
     ops = [(o1, x1), (o2, x2), (o3, x3), (o4, x4), (o5, x5)][:k]
-    D.run('C04', ops, wc, OPS, False)
+    D.run('C04', ops, wc, OPS, False, copied=copied)
 
 
 def dynctx(inb: bool, v: int, w: int, nested: bool) -> None:
@@ -109,6 +109,15 @@ def shards(tier):
             for o3 in (D.DISCARD_ENTER, D.BATCH_ENTER):
                 c = dict(k=4, n1=0, n2=2, o1=D.BATCH_ENTER, o2=o2, o3=o3, kw1=False, kw2=False, o5=0, x5=0, qd1=False, qd2=False)
                 out.append(dict(name='nest_o%d_%d' % (o2, o3), module='harness.c04', fn='prog', consts=c, budget_s=60))
+    # the same programs on a deepcopy / shallow copy of the object the watchers were registered on
+    for copied in (1, 2):
+        for o2 in (D.SET_A, D.SET_B, D.UPDATE, D.TRIGGER_A) if q else OPS:
+            if o2 == D.EXIT:
+                continue
+            c = dict(k=k, n1=0, n2=2, o1=D.BATCH_ENTER, o2=o2, kw1=False, kw2=False, copied=copied, qd1=False, qd2=False)
+            for j in range(k + 1, 6):
+                c.update({'o%d' % j: 0, 'x%d' % j: 0})
+            out.append(dict(name='copy%d_o%d' % (copied, o2), module='harness.c04', fn='prog', consts=c, budget_s=60 if q else 600))
     out.append(dict(name='dynctx', module='harness.c04', fn='dynctx', consts={}, budget_s=60))
     return out
 
